@@ -58,13 +58,16 @@ HttpOutcome(x) ==
     ELSE IF BodyFails(x) THEN Smp(Code(x), TRUE, FALSE)
     ELSE Smp(Code(x), FALSE, FALSE)
 
-\* http/scenario step with postprocessors p: failed step = proto 0 + error + __EMPTY__
+\* http/scenario step with postprocessors p: failed step = error + __EMPTY__ (+ the received status, see below)
 StepFails(x, p) ==
     \/ NetFails(x) \/ BodyFails(x)
     \/ Has(p, "jsonpath") /\ ~BodyJSON(x)                    \* the body is not JSON: capture error
     \/ Has(p, "assert") /\ (HdrTok(x) # "long" \/ ~BodyHasTok(x))   \* assert/response headers {X-Tok: "h"}, body ["tok"]
     \* var/header with |substr(5,10) on a short or absent value and var/xpath on anything never fail the step
-ScenStepOutcome(x, p) == IF StepFails(x, p) THEN Smp(0, TRUE, TRUE) ELSE Smp(Code(x), FALSE, FALSE)
+\* a failed step carries the status that was received, 0 if no response arrived at all
+ScenStepOutcome(x, p) == IF NetFails(x) THEN Smp(0, TRUE, TRUE)
+                         ELSE IF StepFails(x, p) THEN Smp(Code(x), TRUE, TRUE)
+                         ELSE Smp(Code(x), FALSE, FALSE)
 
 \* scenario = << a (postprocessors p), b (none) >>; the same letter answers both steps
 HttpScenOutcome(x, p) ==
